@@ -327,6 +327,17 @@ def r4_md5_scripts(rep, src):
         rep.fail('C07.R4', d.site, 'control fields', 'debcontrol() does not parse the "control" member (%r, members read: %r)' % (r, seen), where=d.where)
 
 
+def r5_parts_are_isolated_views(rep, src):
+    """the control and data parts are ar members over one shared file object (DebFile(fileobj=...)): what the tar layer reads from a
+    part is that part's own bytes whatever was read from the other part in between -- the member rules of C06 (every read is
+    bounded by the member end; the shared file is positioned on the member's own cursor right before each read and the cursor
+    is updated after it) are part of this property's argument and are decided here as well"""
+    from . import C06
+    from .C05 import Proxy
+    C06.r1_bounded_reads(Proxy(rep, 'C07.R5'), src)
+    C06.r2_position_discipline(Proxy(rep, 'C07.R5'), src)
+
+
 def check(src, rep, tier):
     rep.explanation = ('C07: (R1) the member-name normaliser is read as a prefix table and must strip exactly "./" or "/" once (character-set '
                        'stripping is rejected); in has_file/get_file the normaliser call dominates every use of the name and both use the lookup '
@@ -339,7 +350,9 @@ def check(src, rep, tier):
     rep.need('C07.R2', 3)
     rep.need('C07.R3', 3)
     rep.need('C07.R4', 5)
+    rep.need('C07.R5', 6)
     rep.guard('C07.R1', r1_path_spelling, src)
     rep.guard('C07.R2', r2_part_discovery, src)
     rep.guard('C07.R3', r3_init, src)
     rep.guard('C07.R4', r4_md5_scripts, src)
+    rep.guard('C07.R5', r5_parts_are_isolated_views, src)
